@@ -19,7 +19,11 @@ RULE = ("qmail-clean: every request stream over {f,o,p,/,1,NUL,x} and over {t,o,
         "length %(LS1)s with 6 wait statuses, every exit code and signal, after a first command every sequence of up to %(LS)s events over {second command, "
         "EOF on descriptor 0, child 0/1 reaped while in select (select returns -1), EOF on the pipe of child 0/1, both in one wake-up, output of child 0} "
         "(end of input with deliveries in flight, in every order relative to reap / report / the exit test of the main loop; the number of script events "
-        "consumed when the program calls _exit is compared with the model), %(NS)s random sessions (commands cut into arbitrary reads, truncated, oversized, re-used "
+        "consumed when the program calls _exit is compared with the model), after an ordinary (or crashed) delivery in slot 0 a second one in the same slot whose child "
+        "writes a complete success report followed by every sequence of up to %(LS)s events over {the child closes its output descriptors and lives on, killed by a "
+        "signal / exit 111 / exit 100 / exit 0 seen as SIGCHLD+EOF, as EOF before SIGCHLD, or reaped first with the EOF later, more output, end of input} - the pipe "
+        "reaches EOF only when no process holds a write end any more (every close() of the program is recorded), and the oracle lifeOK (no report before the child's "
+        "status was handed over by wait(), K only for exit 0 without signal, a signal -> Z) is evaluated on the trace interleaved with the world's fork/wait events, %(NS)s random sessions (commands cut into arbitrary reads, truncated, oversized, re-used "
         "delivery numbers, hostile/long child output, exits in any order, reaped first and reported later, descriptor 0 closed in the middle of a third of the sessions); "
         "qmail-send del_dochan: every report stream over {0,1,2,3,4,K,Z,D,x,0xff} up to "
         "length %(LD)s against a world with three deliveries in flight (one on a dying job) and against an idle channel, reports with text lengths REPORTMAX-14 .. REPORTMAX+10 "
@@ -122,6 +126,14 @@ def neighbourhood_cases(dis, seed):
                         o2[i:i + 1] = ["k" + o2[i][1:]] + (["z" + o2[i][1:3]] if rnd.random() < 0.5 else [])
                     elif o2[i][0] == "k" and rnd.random() < 0.5:
                         o2[i] = "x" + o2[i][1:]
+                    if rnd.random() < 0.4:                             # the child closes its output before it dies / EOF seen before SIGCHLD
+                        js = [j for j, o in enumerate(o2) if o[0] in "xkv"]
+                        if js:
+                            j = rnd.choice(js)
+                            if rnd.random() < 0.5:
+                                o2.insert(j, "y" + o2[j][1:3])
+                            elif o2[j][0] == "x":
+                                o2[j] = "v" + o2[j][1:]
                     r = rnd.random()
                     if r < 0.25:                                       # end of input anywhere
                         o2.insert(rnd.randint(0, len(o2)), "e")
@@ -186,6 +198,7 @@ def main():
         "system calls of the helpers are scripted by the harness: unlink/open/fstat/pipe/fork/select/read outcomes are inputs of both the C run and the model",
         "qmail-clean: now(), opendir/readdir/closedir and stat of pid/<name> are scripted (directory listings, access times, stat failures are inputs of both the C run and the model); the result of cleanuppid's own unlinks is ignored by the code and always 0 in the harness; negative times are not exercised",
         "spawn.c: out-of-memory (flagabort), write errors on descriptor 1 and EINTR are not exercised; the code after fork() in the child is not run (C11)",
+        "spawn.c: a pipe is modelled as 'EOF iff no write end is open': the child's end is closed by the script (death, or an explicit close while it lives on), the spawner's by its own close() calls, which the harness records",
         "the harness poisons the unused tail of a child's output buffer while report() runs, so a read beyond the output aborts under ASan and is reported with its input",
         "qmail-send: virtualdomains, locals and percenthack are empty in addbounce (stripvdomprepend is the identity); no new delivery starts while the stream is read",
         "unsigned long is 64 bits (LP64)",
